@@ -81,9 +81,10 @@ def lock_spec(prop, tier):
     if prop == "C11":
         if q:
             return lr(fam("p2x1", "conv2", locks=MCS), -1) + lr(fam("p2x2", "p3x1", "conv3", "fifo4", locks=MCS), 2)
-        return (lr(fam("p2x1", "conv2", "p2x2", "p3x1", locks=MCS), -1, **T)
-                + lr(fam("conv3", "p3x2", "fifo4", locks=MCS), 3, **T)
-                + lr(fam("p4x1", locks=MCS), 2, **T))
+        return (lr(fam("p2x1", "conv2", "p2x2", locks=MCS), -1, **T)
+                + lr(fam("p3x1", locks=MCS), 4, **T)
+                + lr(fam("conv3", "fifo4", locks=MCS), 3, **T)
+                + lr(fam("p3x2", "p4x1", locks=MCS), 2, **T))
     if prop == "C12":
         if q:
             return (lr(fam("p1", "p2x1", "conv2", "guards2", locks=MCS), -1)
@@ -96,24 +97,26 @@ def lock_spec(prop, tier):
         if q:
             return lr(fam("opt1", "opt2", "republish", locks=OPT), -1) + lr(fam("opt2x2", locks=OPT), 2)
         return (lr(fam("opt1", "opt2", "republish", "opt2x2", locks=OPT), -1, **T)
-                + lr(fam("opt3", locks=OPT), 3, **T)
-                + lr(fam("opt2", "republish", locks=OPT), -1, retry=1, **T)
-                + lr(fam("opt2", locks=OPT), 2, dev=1, **T))
+                + lr(fam("opt3", locks=OPT), 4, **T)
+                + lr(fam("opt2", "republish", "opt2x2", locks=OPT), -1, retry=1, **T)
+                + lr(fam("opt2", "republish", locks=OPT), 3, dev=1, **T))
     if prop == "C09":
         if q:
             return lr(fam("opt1", "ver2", locks=OPT), -1)
         return (lr(fam("opt1", "ver2", "opt2", locks=OPT), -1, **T)
-                + lr(fam("ver3", locks=OPT), 3, **T)
-                + lr(fam("ver2", locks=OPT), 2, dev=1, **T))
+                + lr(fam("ver3", locks=OPT), 4, **T)
+                + lr(fam("ver2", locks=OPT), -1, retry=1, **T)
+                + lr(fam("ver2", locks=OPT), 3, dev=1, **T))
     if prop == "C13":
         if q:
             return (lr(fam("opt1", "prep2", locks=OPT), -1)
                     + lr(fam("prep2", locks=OPT), -1, retry=1))
         return (lr(fam("opt1", "prep2", locks=OPT), -1, **T)
-                + lr(fam("prep3", "prep4", locks=OPT), 3, **T)
+                + lr(fam("prep3", locks=OPT), 4, **T)
+                + lr(fam("prep4", locks=OPT), 3, **T)
                 + lr(fam("prep2", locks=OPT), -1, retry=1, **T)
-                + lr(fam("prep3", locks=OPT), 2, retry=1, **T)
-                + lr(fam("prep2", locks=OPT), 2, dev=1, **T))
+                + lr(fam("prep3", locks=OPT), 3, retry=1, **T)
+                + lr(fam("prep2", locks=OPT), 3, dev=1, **T))
     return None
 
 
@@ -158,22 +161,23 @@ def epoch_spec(prop, tier):
     if prop == "C04":
         if q:
             return [ep(1, ("reuse", "pin1"), 2), ep(2, ("pin1", "pin2", "reuse"), 2)]
-        return [ep(1, ("reuse", "pin1"), 4, 300, 120), ep(2, ("pin1", "pin2", "reuse", "public"), 3, 300, 120),
-                ep(3, ("pin2", "public"), 3, 300, 120)]
+        return [ep(1, ("reuse", "pin1"), 6, 600, 600), ep(2, ("pin1", "pin2", "public"), 4, 900, 900), ep(2, ("reuse",), 3, 900, 900),
+                ep(3, ("pin2", "public"), 3, 600, 600)]
     if prop == "C16":
         if q:
             return [ep(2, ("obs", "pin1", "moves"), 2), ep(2, (), 0, 60, 30, ("--histories", "5"), "sequential histories depth 5")]
-        return [ep(2, ("obs", "pin1", "pin2", "list1", "moves"), 3, 300, 120), ep(1, ("obs", "moves"), 4, 300, 120),
-                ep(2, (), 0, 300, 60, ("--histories", "7"), "sequential histories depth 7")]
+        return [ep(2, ("obs", "pin1", "pin2", "list1", "moves"), 4, 900, 900), ep(1, ("obs", "moves"), 6, 600, 600),
+                ep(2, (), 0, 600, 120, ("--histories", "8"), "sequential histories depth 8")]
     if prop == "C17":
         if q:
             return [ep(1, ("list1",), 2), ep(2, ("list1", "list2"), 2)]
-        return [ep(1, ("list1",), 4, 300, 120), ep(2, ("list1", "list2", "public"), 3, 300, 120)]
+        return [ep(1, ("list1",), 8, 600, 600), ep(2, ("list1",), 5, 900, 900), ep(2, ("list2", "public"), 3, 900, 900)]
     if prop == "C20":
         if q:
             return [ep(2, (), 0, 80, 30, ("--histories", "6"), "sequential histories depth 6"), ep(2, ("list1",), 1)]
-        return [ep(2, (), 0, 500, 60, ("--histories", "8"), "sequential histories depth 8"), ep(1, (), 0, 200, 60, ("--histories", "9"), "sequential histories depth 9 (1 worker)"),
-                ep(2, ("list1", "list2"), 2, 200, 60)]
+        return [ep(2, (), 0, 900, 120, ("--histories", "10"), "sequential histories depth 10"),
+                ep(1, (), 0, 600, 120, ("--histories", "12"), "sequential histories depth 12 (1 worker)"),
+                ep(2, ("list1", "list2"), 3, 600, 300)]
     return None
 
 
